@@ -1,4 +1,4 @@
--- GENERATED by `drive extract` from /repo on every run. Do not edit.
+-- GENERATED from /repo by the harness `extract` sub-command on every run. Do not edit.
 namespace Sop.Facts
 def blockSize : Nat := 4096
 def handleSizeInBytes : Nat := 62
